@@ -105,6 +105,9 @@ func jobsFor(prop, tier string) []Job {
 		typedJobs("heaps", add)
 		rewoundJobs("heaps", q, add)
 		treadmillJobs([]string{"binaryheap", "priorityqueue"}, add)
+		for _, c := range []string{"binaryheap", "priorityqueue"} {
+			add("heapreload", "heapreload."+c, 20, map[string]string{"c": c}, nil)
+		}
 		for _, k := range []string{"binaryheap", "priorityqueue"} {
 			add("heapnew", fmt.Sprintf("%s.New.n%d", k, pick(6, 8)), 30, map[string]string{"c": k}, map[string]int{"n": pick(6, 8), "u": 3})
 			add("heapnewf", fmt.Sprintf("%s.New.float.n%d", k, pick(5, 6)), 30, map[string]string{"c": k}, map[string]int{"n": pick(5, 6), "u": pick(4, 5)})
